@@ -2,8 +2,10 @@
 // chunks than the configured limits and is complete; a request whose true answer exceeds a limit fails with
 // ResourceExhausted.
 //
-// Engine E4: block universes x selectors x time ranges x (series limit, chunk limit) around the true counts x
-// lazy postings x series batch size x index cache {none, cold, warm}.
+// Engine E4: block universes x selectors x time ranges x request shape {with chunks, SkipChunks} x (series limit,
+// chunk limit) around the true counts x lazy postings x series batch size x index cache {none, cold, warm}.
+// The label calls with matchers (which run the same per-block series client with SkipChunks) are driven with the
+// same series limits; the statement promises nothing about them, so they are observed and counted only.
 package c09
 
 import (
@@ -16,8 +18,11 @@ import (
 	"sync/atomic"
 	"testing"
 
+	dto "github.com/prometheus/client_model/go"
 	"google.golang.org/grpc/codes"
 	"google.golang.org/grpc/status"
+
+	"github.com/prometheus/client_golang/prometheus"
 
 	"github.com/thanos-io/thanos/pkg/store/storepb"
 
@@ -78,6 +83,7 @@ type Query struct {
 	Ms   []M   `json:"ms"`
 	MinT int64 `json:"mint"`
 	MaxT int64 `json:"maxt"`
+	Skip bool  `json:"skip,omitempty"` // SeriesRequest.SkipChunks: the answer is the label sets only
 }
 
 func (q Query) String() string {
@@ -85,7 +91,11 @@ func (q Query) String() string {
 	for _, m := range q.Ms {
 		s = append(s, m.String())
 	}
-	return fmt.Sprintf("{%s}@[%d,%d]", strings.Join(s, ","), q.MinT, q.MaxT)
+	sk := ""
+	if q.Skip {
+		sk = " skip-chunks"
+	}
+	return fmt.Sprintf("{%s}@[%d,%d]%s", strings.Join(s, ","), q.MinT, q.MaxT, sk)
 }
 
 func selectorSets(u string, thorough bool) [][]M {
@@ -174,6 +184,9 @@ type env struct {
 	all  []*pooled
 
 	calls, okLimited, rejected, overcount, otherErr atomic.Int64
+
+	skipCalls, skipLazyCases, skipRejected                      atomic.Int64 // the SkipChunks part of the above
+	labelCalls, labelRejected, labelOverLimitOK, labelOtherErrs atomic.Int64 // label calls: observed only
 }
 
 func (e *env) acquire(ctx context.Context, u int, cfg Config) (*pooled, error) {
@@ -187,7 +200,7 @@ func (e *env) acquire(ctx context.Context, u int, cfg Config) (*pooled, error) {
 	}
 	e.mu.Unlock()
 	lim := &limits{}
-	g, err := newGateway(ctx, e.unis[u], cfg, lim, e.hdr[u], nil)
+	g, err := newGateway(ctx, e.unis[u], cfg, lim, e.hdr[u], prometheus.NewRegistry())
 	if err != nil {
 		return nil, err
 	}
@@ -215,14 +228,56 @@ func (e *env) gen(thorough bool) iter.Seq[Case] {
 			for _, cfg := range configs(thorough) {
 				for _, ms := range selectorSets(universeNames[u], thorough) {
 					for _, rg := range ranges[:nr] {
-						if !yield(Case{U: u, Cfg: cfg, Q: Query{Ms: ms, MinT: rg[0], MaxT: rg[1]}}) {
-							return
+						for _, skip := range []bool{false, true} {
+							if !yield(Case{U: u, Cfg: cfg, Q: Query{Ms: ms, MinT: rg[0], MaxT: rg[1], Skip: skip}}) {
+								return
+							}
 						}
 					}
 				}
 			}
 		}
 	}
+}
+
+// lazyExpansions reads thanos_bucket_store_lazy_expanded_postings_total of the store: the number of per-block
+// queries whose postings were really expanded lazily.
+func (p *pooled) lazyExpansions() float64 {
+	if p.g.reg == nil {
+		return 0
+	}
+	mfs, err := p.g.reg.Gather()
+	if err != nil {
+		panic(fmt.Sprintf("HARNESS-ERROR gather: %v", err))
+	}
+	return sumCounter(mfs, "thanos_bucket_store_lazy_expanded_postings_total")
+}
+
+func sumCounter(mfs []*dto.MetricFamily, name string) float64 {
+	v := 0.0
+	for _, mf := range mfs {
+		if mf.GetName() != name {
+			continue
+		}
+		for _, m := range mf.GetMetric() {
+			v += m.GetCounter().GetValue()
+		}
+	}
+	return v
+}
+
+// guarded runs one call into the store and turns a panic of the code under test (in the calling goroutine) into a value.
+func guarded(f func() error) (err error, panicked any) {
+	defer func() {
+		if x := recover(); x != nil {
+			panicked = x
+		}
+	}()
+	return f(), nil
+}
+
+func hasLabel(key, name string) bool {
+	return strings.HasPrefix(key, "{"+name+"=\"") || strings.Contains(key, ", "+name+"=\"")
 }
 
 func (e *env) eval(c Case) {
@@ -242,9 +297,21 @@ func (e *env) eval(c Case) {
 	if err != nil {
 		panic(fmt.Sprintf("HARNESS-ERROR reference read failed: %v", err))
 	}
+	skip := c.Q.Skip
+	mode := ""
 	ts, tc := len(want), 0
-	for _, chks := range want {
-		tc += len(dedupChunks(chks)) // byte-identical chunks held by two blocks are returned once
+	if skip {
+		// the complete answer of a SkipChunks request: the same series (those with a chunk in the range), no chunks
+		mode = "skip-chunks-"
+		labelsOnly := answer{}
+		for k := range want {
+			labelsOnly[k] = nil
+		}
+		want = labelsOnly
+	} else {
+		for _, chks := range want {
+			tc += len(dedupChunks(chks)) // byte-identical chunks held by two blocks are returned once
+		}
 	}
 	var combos [][2]uint64
 	if c.Lim != nil {
@@ -253,11 +320,19 @@ func (e *env) eval(c Case) {
 		}
 		combos = append(combos, [2]uint64{c.Lim[0], c.Lim[1]})
 	} else {
+		chunkOpts := limitOptions(tc)
+		if skip {
+			chunkOpts = []uint64{0, 1} // no chunk is returned: no chunk limit can be exceeded, 1 is the tightest
+		}
 		for _, n := range limitOptions(ts) {
-			for _, m := range limitOptions(tc) {
+			for _, m := range chunkOpts {
 				combos = append(combos, [2]uint64{n, m})
 			}
 		}
+	}
+	lazyBefore := 0.0
+	if skip {
+		lazyBefore = p.lazyExpansions()
 	}
 	ncalls := int64(0)
 	for _, lm := range combos {
@@ -265,7 +340,7 @@ func (e *env) eval(c Case) {
 		narrowed := c
 		narrowed.Lim = []uint64{n, m}
 		exceeds := (n > 0 && uint64(ts) > n) || (m > 0 && uint64(tc) > m)
-		if (n > 0 && uint64(ts)+1 >= n && uint64(ts) <= n+1) || (m > 0 && uint64(tc)+1 >= m && uint64(tc) <= m+1) {
+		if (n > 0 && uint64(ts)+1 >= n && uint64(ts) <= n+1) || (!skip && m > 0 && uint64(tc)+1 >= m && uint64(tc) <= m+1) {
 			r.Nontrivial(fmt.Sprintf("%d|%s|%d|%d", c.U, c.Q, n, m))
 		}
 		p.lim.set(n, m)
@@ -277,9 +352,21 @@ func (e *env) eval(c Case) {
 			phases = append(phases, "warm-cache-")
 		}
 		for _, ph := range phases {
-			res, err := p.g.series(ctx, &storepb.SeriesRequest{MinTime: c.Q.MinT, MaxTime: c.Q.MaxT, Matchers: pbMatchers(c.Q.Ms)})
+			ph += mode
+			var res *result
+			err, pv := guarded(func() (err error) {
+				res, err = p.g.series(ctx, &storepb.SeriesRequest{MinTime: c.Q.MinT, MaxTime: c.Q.MaxT, Matchers: pbMatchers(c.Q.Ms), SkipChunks: skip})
+				return err
+			})
 			ncalls++
+			if skip {
+				e.skipCalls.Add(1)
+			}
 			where := fmt.Sprintf("%s on %s %s with series limit %d (true %d), chunk limit %d (true %d)", c.Q, u.name, c.Cfg, n, ts, m, tc)
+			if pv != nil {
+				r.Violation(ph+"series-call-panics", fmt.Sprintf("%s: panic: %v", where, pv), narrowed)
+				continue
+			}
 			if err != nil {
 				code := status.Code(err)
 				switch {
@@ -287,6 +374,9 @@ func (e *env) eval(c Case) {
 					r.Violation(ph+"limit-exceeded-error-is-not-resource-exhausted", fmt.Sprintf("%s: failed with code %s: %v", where, code, err), narrowed)
 				case exceeds:
 					e.rejected.Add(1)
+					if skip {
+						e.skipRejected.Add(1)
+					}
 				case code == codes.ResourceExhausted:
 					e.overcount.Add(1) // the statement allows rejecting a request that is within the limits
 				default:
@@ -320,22 +410,100 @@ func (e *env) eval(c Case) {
 			}
 		}
 	}
+	if skip {
+		if p.lazyExpansions() > lazyBefore {
+			e.skipLazyCases.Add(1)
+			r.Add("skip_chunks_cases_with_lazily_expanded_postings_"+u.name, 1)
+		}
+	}
 	e.calls.Add(ncalls)
+	if skip {
+		ncalls += e.observeLabelCalls(ctx, c, p, want, combos)
+	}
 	if ncalls > 1 {
 		r.Eval(ncalls - 1)
 	}
+}
+
+// observeLabelCalls drives LabelNames / LabelValues with the matchers of the case under every series limit of the
+// case. These calls run the same per-block series client as a SkipChunks Series request and are handed the series
+// limiter, but the property statement is about Series calls only: nothing is asserted, the outcomes are counted
+// ("label_calls_succeeding_with_more_matching_series_than_the_limit" is what a reader may want to look at).
+func (e *env) observeLabelCalls(ctx context.Context, c Case, p *pooled, want answer, combos [][2]uint64) (ncalls int64) {
+	u := e.unis[c.U]
+	onlyExt := true // matchers on external labels only: answered from the index header, no series is read
+	for _, m := range c.Q.Ms {
+		isExt := false
+		for _, b := range u.blocks {
+			if b.ext.Has(m.N) {
+				isExt = true
+			}
+		}
+		if !isExt {
+			onlyExt = false
+		}
+	}
+	if onlyExt || len(c.Q.Ms) == 0 {
+		return 0
+	}
+	name := c.Q.Ms[0].N
+	withName := 0 // LabelValues adds name!="" for the blocks that do not carry name as an external label
+	for k := range want {
+		if hasLabel(k, name) {
+			withName++
+		}
+	}
+	seen := map[uint64]bool{}
+	for _, lm := range combos {
+		n := lm[0]
+		if seen[n] {
+			continue
+		}
+		seen[n] = true
+		p.lim.set(n, 0)
+		if p.g.cache != nil {
+			p.g.cache.reset()
+		}
+		for i, needed := range []int{len(want), withName} {
+			err, pv := guarded(func() error {
+				if i == 0 {
+					_, err := p.g.st.LabelNames(ctx, &storepb.LabelNamesRequest{Start: c.Q.MinT, End: c.Q.MaxT, Matchers: pbMatchers(c.Q.Ms)})
+					return err
+				}
+				_, err := p.g.st.LabelValues(ctx, &storepb.LabelValuesRequest{Label: name, Start: c.Q.MinT, End: c.Q.MaxT, Matchers: pbMatchers(c.Q.Ms)})
+				return err
+			})
+			ncalls++
+			e.labelCalls.Add(1)
+			switch {
+			case pv != nil:
+				e.labelOtherErrs.Add(1)
+				e.r.Note("a label call panicked (observed only): %s on %s %s series limit %d: %v", c.Q, u.name, c.Cfg, n, pv)
+			case err != nil && status.Code(err) == codes.ResourceExhausted:
+				e.labelRejected.Add(1)
+			case err != nil:
+				e.labelOtherErrs.Add(1)
+			case n > 0 && uint64(needed) > n:
+				e.labelOverLimitOK.Add(1)
+			}
+		}
+	}
+	return ncalls
 }
 
 func TestCheck(t *testing.T) {
 	r := vlib.New(t, "C09")
 	defer r.Finish()
 	r.Rule("real BucketStore over 3 block universes (1 block / 4 blocks incl. an overlapping block repeating a chunk / 40 series); selector sets x time ranges x " +
-		"series limit in {off,1,true-1,true,true+1,2*true+3} x chunk limit likewise (true = counts of the direct TSDB read of the same request) x " +
+		"request shape {with chunks, SkipChunks} x series limit in {off,1,true-1,true,true+1,2*true+3} x chunk limit likewise ({off,1} for SkipChunks, which returns " +
+		"no chunk) (true = counts of the direct TSDB read of the same request) x " +
 		"lazy postings {off, always, ratio 0.5} x series batch {1,2,1e4} x index cache {none, cold, warm}; " +
 		"non-trivial = distinct (universe, request, limits) with a limit within 1 of the true count")
 	r.Assume("limits are supplied through the limiter factories (read per Series call), each call gets real store.Limiter objects",
 		"the true chunk count counts a byte-identical chunk held by two overlapping blocks once (that is what a complete answer carries)",
 		"rejecting a request that is within its limits (the store counts postings before the time filter, and per block) is not a violation of the statement; it is counted in 'overcount_rejections'",
+		"the complete answer of a SkipChunks request is the label sets of the series that have a chunk overlapping the time range (no chunks); its chunk count is 0, so only the series limit can be exceeded",
+		"LabelNames/LabelValues with matchers are driven under the same series limits but only observed (counters label_calls_*): the statement is about Series calls",
 		"the per-request SeriesRequest.Limit field and the bytes limiter are not exercised")
 	ctx := context.Background()
 	root := t.TempDir()
@@ -368,7 +536,20 @@ func TestCheck(t *testing.T) {
 	r.Set("resource_exhausted_when_exceeding", e.rejected.Load())
 	r.Set("overcount_rejections", e.overcount.Load())
 	r.Set("other_errors", e.otherErr.Load())
+	r.Set("skip_chunks_series_calls", e.skipCalls.Load())
+	r.Set("skip_chunks_resource_exhausted_when_exceeding", e.skipRejected.Load())
+	r.Set("skip_chunks_cases_with_lazily_expanded_postings", e.skipLazyCases.Load())
+	r.Set("label_calls_observed", e.labelCalls.Load())
+	r.Set("label_calls_resource_exhausted", e.labelRejected.Load())
+	r.Set("label_calls_other_errors", e.labelOtherErrs.Load())
+	r.Set("label_calls_succeeding_with_more_matching_series_than_the_limit", e.labelOverLimitOK.Load())
+	if n := e.labelOverLimitOK.Load(); n > 0 {
+		r.Note("%d LabelNames/LabelValues calls with matchers succeeded although more series match than the series limit allows (observed only: the statement is about Series calls)", n)
+	}
 	if !r.Replaying() && (e.okLimited.Load() == 0 || e.rejected.Load() == 0) {
 		r.Cap("no success under a limit or no rejection was observed")
+	}
+	if !r.Replaying() && (e.skipRejected.Load() == 0 || e.skipLazyCases.Load() == 0) {
+		r.Cap("no SkipChunks rejection or no SkipChunks request with lazily expanded postings was observed")
 	}
 }
